@@ -18,7 +18,9 @@ where
                     let mut r = mk();
                     let mut i = w as u64;
                     while i < n {
+                        crate::watch::begin(w, i);
                         f(&mut d, &mut r, i);
+                        crate::watch::end(w);
                         i += threads as u64;
                     }
                     r
